@@ -104,8 +104,11 @@ from ast import (  # noqa # pylint: disable=unused-import
     comprehension,
     dump,
     increment_lineno,
+    iter_child_nodes,
+    iter_fields,
     keyword,
     literal_eval,
+    stmt,
     walk,
     withitem,
 )
@@ -361,6 +364,32 @@ def isdescendable(node):
     return isinstance(node, UnaryOp | BoolOp)
 
 
+def _walrus_names(node):
+    """Targets of every ``:=`` in the expression that bind in the enclosing
+    scope (a walrus inside a lambda is local to the lambda)."""
+    names = set()
+    todo = [node]
+    while todo:
+        n = todo.pop()
+        if isinstance(n, Lambda):
+            continue
+        if isinstance(n, NamedExpr):
+            names.add(n.target.id)
+        todo.extend(iter_child_nodes(n))
+    return names
+
+
+def _own_walrus_names(node):
+    """Walrus targets of a statement's (or except clause's) own expressions,
+    not of the statements nested in it."""
+    names = set()
+    for _, value in iter_fields(node):
+        for item in value if isinstance(value, list) else [value]:
+            if isinstance(item, AST) and not isinstance(item, stmt | ExceptHandler):
+                names |= _walrus_names(item)
+    return names
+
+
 def isexpression(node, ctx=None, *args, **kwargs):
     """Determines whether a node (or code string) is an expression, and
     does not contain any statements. The execution context (ctx) and
@@ -438,6 +467,15 @@ class CtxAwareTransformer(NodeTransformer):
         del self.lines, self.contexts, self.mode, self._user_names
         self._nwith = 0
         return node
+
+    def visit(self, node):
+        """Visit a node.  A walrus binds its target for the rest of the scope
+        wherever it sits in the statement, but generic_visit does not get
+        below expression statements, and/or/not operands or comprehension
+        clauses: record the targets when the statement is entered."""
+        if isinstance(node, stmt | ExceptHandler):
+            self.ctxupdate(_own_walrus_names(node))
+        return super().visit(node)
 
     def ctxupdate(self, iterable):
         """Updated the most recent context."""
